@@ -276,6 +276,7 @@ impl World {
                     match plain {
                         Outcome::Ok((p2, k2)) => {
                             if &p2 != prv || &k2 != pubk {
+                                self.violate("C09", "impure:keygen:aux-content", "purity", format!("the generated key pair depends on the content of the aux buffer ({} buffer)", fill_name));
                                 self.violate("C10", format!("keygen-transparency:{}", fill_name), "aux-transparency", format!("keygen with a {} aux buffer of {} bytes returned public key {} but {} without aux", fill_name, aux_before.as_ref().map(|b| b.len()).unwrap_or(*len), hex(pubk), hex(&k2)));
                             }
                         }
@@ -642,6 +643,7 @@ impl World {
                 match (&outcome, &plain) {
                     (Outcome::Ok(a), Outcome::Ok(b)) => {
                         if a != b {
+                            self.violate("C09", "impure:sign:aux-content", "purity", format!("the signature depends on the content of the aux buffer ({} buffer of {} bytes, counter {})", cls, before.len(), counter_s));
                             self.violate("C10", format!("sign-transparency:{}", cls), "aux-transparency", format!("signature with a {} aux buffer ({} bytes) differs from the signature without aux (counter {})", cls, before.len(), counter_s));
                         }
                         if let (Some(x), Some(y)) = (&successor_seen, &plain_succ) {
@@ -1236,6 +1238,7 @@ pub fn aux_fault_name(f: &AuxFault) -> &'static str {
         AuxFault::CopyFrom { .. } => "stale-or-foreign",
         AuxFault::MacBit { .. } => "mac-bit",
         AuxFault::NodeZero { .. } => "node-zero",
+        AuxFault::DropMac => "drop-mac",
     }
 }
 pub fn prv_fault_name(f: &PrvFault) -> &'static str {
@@ -1300,6 +1303,10 @@ pub fn apply_aux_fault(cur: &mut Vec<u8>, fault: &AuxFault, src: Option<Vec<u8>>
                 let b = (*bit as usize) % (8 * n);
                 cur[off + b / 8] ^= 1 << (b % 8);
             }
+        }
+        AuxFault::DropMac => {
+            let l = cur.len().saturating_sub(n);
+            cur.truncate(l);
         }
         AuxFault::NodeZero { pos } => {
             if cur.len() > 4 + 2 * n {
